@@ -141,7 +141,7 @@ def path(J, ctx, kind, m, n, cfg, prefilter=False):
 
 def run_job(job):
     J = Job(job)
-    r = run_paths(J, lambda ctx: path(J, ctx, job["kind"], job["m"], job["n"], job["cfg"], job.get("prefilter", False)), max_paths=400)
+    r = run_paths(J, lambda ctx: path(J, ctx, job["kind"], job["m"], job["n"], job["cfg"], job.get("prefilter", False)), max_paths=400, timeout_ms=400000 if job.get("tier") == "thorough" else 90000)
     both = J.extra.get("paths_none", 0) > 0 and J.extra.get("paths_match", 0) > 0
     r["nontrivial"] = 1 if both else 0
     r["vacuity"] = bool(J.extra.get("paths_none", 0) or J.extra.get("paths_match", 0))
